@@ -154,7 +154,8 @@ def run(tier):
         path = os.path.join(work, "c16.ndjson")
         recs = {}
         keys = [("z", 2.5, 64, 1), ("w", 1.0, 33, 2), ("x", 10.0, 100, 3), ("z", 0.5, 9, 1)]
-        seeds = [0, 1, 7, 2 ** 32 - 1, 123456789]
+        # (the same values also as numpy integers: a seed read from an array or produced by numpy arithmetic is the same seed)
+        seeds = [0, 1, 7, 2 ** 32 - 1, 123456789, np.int64(7), np.uint32(123456789), np.int64(0)]
         held = {}
         with open(path, "w") as fp:
             for j in range(60 if quick else 600):
